@@ -44,7 +44,6 @@ type muxObs struct {
 	Endc     []map[string]bool `json:"endc"`
 	Rwait    map[string][]bool `json:"rwait"`
 	Await    bool              `json:"await"`
-	Settled  bool              `json:"settled"`
 	Timers   map[string]int    `json:"timers"`
 }
 
@@ -54,7 +53,8 @@ type muxStep struct {
 }
 
 type muxBehaviour struct {
-	Steps []muxStep `json:"steps"`
+	Steps   []muxStep `json:"steps"`
+	Settled bool      `json:"settled"`
 }
 
 // concretisation of the abstract constants
@@ -370,8 +370,9 @@ func muxRun(b *muxBehaviour, conc muxConc) (v muxVerdict, table []string, diverg
 			time.Sleep(time.Millisecond) // keeps the instants of different steps apart
 		}
 		// compare the observation when the group (environment step + its internal continuations) is over
-		last := i+1 == len(steps) || !muxInternal(steps[i+1].Ev.A, steps, i+1)
-		if last && steps[i].Obs.Settled {
+		// internal continuations have priority in MuxGen, so the state before the next environment step is quiescent
+		last := (i+1 == len(steps) && b.Settled) || (i+1 < len(steps) && !muxInternal(steps[i+1].Ev.A, steps, i+1))
+		if last {
 			if vv := w.compareObs(i, ev, steps[i].Obs); vv.Key != "" || w.diverged != "" {
 				return vv, w.table, w.diverged
 			}
@@ -923,68 +924,96 @@ func muxConcretisations0(idx int, all bool, unordered, singleplex bool, nc int) 
 	return out
 }
 
+type muxJob struct {
+	Name       string `json:"name"`
+	File       string `json:"file"`
+	NC         int    `json:"nc"`
+	Unordered  bool   `json:"unordered"`
+	Singleplex bool   `json:"singleplex"`
+	AllConc    bool   `json:"allconc"`
+	Gates      bool   `json:"gates"`
+	TimerEp    string `json:"timerep"`
+	Late       int    `json:"late"`
+}
+
+// TestVerifMuxReplay replays the behaviour files listed in the job file VERIF_JOBS (one process for all of
+// them); per-job counts are reported as stats "<job>:behaviours|violations|diverged".
 func TestVerifMuxReplay(t *testing.T) {
 	log.SetOutput(io.Discard)
 	log.SetLevel(log.PanicLevel)
 	res := kit.NewResult()
 	defer func() { res.Save(true) }()
-	unordered := kit.Env("VERIF_MUX_UNORDERED", "") == "1"
-	singleplex := kit.Env("VERIF_MUX_SINGLEPLEX", "") == "1"
-	nc := kit.EnvInt("VERIF_MUX_NC", 2)
-	allConc := kit.Env("VERIF_MUX_ALLCONC", "") == "1"
-	base := muxConc{Unordered: unordered, Singleplex: singleplex, NC: nc, Gates: kit.Env("VERIF_MUX_GATES", "") == "1",
-		TimerEp: kit.Env("VERIF_MUX_TIMEREP", ""), Late: kit.EnvInt("VERIF_MUX_LATE", 0)}
 	if rp := kit.Env("VERIF_REPLAY", ""); rp != "" {
 		muxReplayFile(t, rp)
 		return
 	}
+	raw, err := os.ReadFile(kit.Env("VERIF_JOBS", ""))
+	if err != nil {
+		t.Fatal(err)
+	}
+	var jobs []muxJob
+	if err := json.Unmarshal(raw, &jobs); err != nil {
+		t.Fatal(err)
+	}
+	for _, job := range jobs {
+		muxReplayJob(t, res, job)
+	}
+}
+
+func muxReplayJob(t *testing.T, res *kit.Result, job muxJob) {
+	base := muxConc{Unordered: job.Unordered, Singleplex: job.Singleplex, NC: job.NC, Gates: job.Gates, TimerEp: job.TimerEp, Late: job.Late}
 	idx := 0
 	diverged := 0
-	err := kit.ReadLines(kit.Env("VERIF_IN", ""), func(line []byte) error {
+	violations := 0
+	err := kit.ReadLines(job.File, func(line []byte) error {
 		var b muxBehaviour
 		if err := json.Unmarshal(line, &b); err != nil {
 			return err
 		}
 		idx++
-		if res.NumViolations() > 10 || diverged > 10 {
+		if violations > 10 || diverged > 10 {
 			return nil
 		}
-		for _, conc := range muxConcretisations(idx, allConc, base) {
+		for _, conc := range muxConcretisations(idx, job.AllConc, base) {
 			var v muxVerdict
 			var table []string
 			var dv string
 			synctest.Test(t, func(t *testing.T) {
 				v, table, dv = muxRun(&b, conc)
 			})
-			res.Count(string(line), muxNontrivial(&b))
+			res.Count(job.Name+"|"+string(line), muxNontrivial(&b))
+			res.Stat(job.Name+":evaluations", 1)
 			if v.Key != "" {
 				// deterministic scenario: run it once more and require the same verdict
 				var v2 muxVerdict
 				synctest.Test(t, func(t *testing.T) { v2, _, _ = muxRun(&b, conc) })
 				if v2.Key == v.Key {
-					res.Violate(v.Key, v.What, map[string]any{"behaviour": b, "concretisation": conc, "table": table})
+					violations++
+					res.Stat(job.Name+":violations", 1)
+					res.Violate(v.Key, v.What, map[string]any{"job": job.Name, "behaviour": b, "concretisation": conc, "table": table})
 				} else {
-					res.Note("unstable verdict %q vs %q on behaviour %d", v.Key, v2.Key, idx)
+					res.Note("%s: unstable verdict %q vs %q on behaviour %d", job.Name, v.Key, v2.Key, idx)
 					res.Stat("unstable", 1)
 				}
 			} else if dv != "" {
 				diverged++
 				res.Stat("diverged", 1)
-				res.Note("behaviour %d diverged: %s", idx, dv)
+				res.Stat(job.Name+":diverged", 1)
+				res.Note("%s: behaviour %d diverged: %s", job.Name, idx, dv)
 				if diverged <= 2 {
-					res.Sample(map[string]any{"diverged": dv, "table": table}, 8)
+					res.Sample(map[string]any{"job": job.Name, "diverged": dv, "table": table}, 12)
 				}
 			}
 		}
 		if idx%1499 == 1 {
-			res.Sample(map[string]any{"behaviour": json.RawMessage(append([]byte{}, line...))}, 3)
+			res.Sample(map[string]any{"job": job.Name, "behaviour": json.RawMessage(append([]byte{}, line...))}, 6)
 		}
 		return nil
 	})
 	if err != nil {
 		t.Fatal(err)
 	}
-	res.Stat("behaviours", int64(idx))
+	res.Stat(job.Name+":behaviours", int64(idx))
 }
 
 func muxReplayFile(t *testing.T, path string) {
